@@ -86,8 +86,8 @@ CLAIMS: dict[str, tuple[str, str, str, str]] = {
         "spellings normalises like the LF source), normalize_clean (no CR/NUL survives), nul_like_fffd, "
         "indent_cols, marker_tab (+ marker_tab_spellings: the block-quote marker arithmetic depends only on "
         "the absolute column the blank run reaches, at any nesting depth); end to end for the modelled sub-parsers "
-        "(Props/C17b.lean q_line_endings, q_nul, mini_*: any mixture of line-ending spellings and NUL vs U+FFFD give "
-        "the same token stream, for every source, rule subset and maxNesting; models tied by `miniblock`/`qblock`). PARTIAL: the full tab congruence "
+        "(Props/C17b.lean q_line_endings, q_nul, l_line_endings, l_nul, mini_*: any mixture of line-ending spellings and NUL vs U+FFFD give "
+        "the same token stream, for every source, rule subset and maxNesting; models tied by `miniblock`/`qblock`/`lblock`). PARTIAL: the full tab congruence "
         "(every rule depends on a prefix spelling only through getLines; list-marker arithmetic) is not a "
         "theorem and is decided by the oracle, exhaustive over the property's constructed family. That equal "
         "normalize results give equal parses rests on normalize being the first core rule (pinned by T1). "
@@ -166,7 +166,9 @@ CLAIMS: dict[str, tuple[str, str, str, str]] = {
         "of rule segments at the loop's level, under the segment contract K5) with K5 PROVED for code, fence, hr, "
         "heading, paragraph (Props/C02b.lean), giving the unconditional mini_wellformed for that sub-parser (levelled "
         "from 0, balanced, tree builds; model tied by `miniblock`), and for the container rule blockquote (Props/C02c.lean) "
-        "giving q_wellformed with block quotes nested to any depth (tie `qblock`). MISSING: that delimiter matching is laminar "
+        "giving q_wellformed with block quotes nested to any depth (tie `qblock`), and for the list rule (Props/C02d.lean: the "
+        "token shape of items and lists up to the hidden flags of markTightParagraphs) giving l_wellformed with quotes and lists "
+        "nested in each other to any depth (tie `lblock`). MISSING: that delimiter matching is laminar "
         "(em/strong/s pairs never cross) — processDelimiters is not modelled; and K5 for the remaining block/inline "
         "rules (monitored). Both are decided by the oracle: the property's predicate on every stream, recursively, "
         "incl. a bounded-exhaustive delimiter sweep. Known finding K-C02-1 (parseInline wrapper not flagged block, "
@@ -211,7 +213,7 @@ CLAIMS: dict[str, tuple[str, str, str, str]] = {
         "stages (maps nest). The map contract is PROVED for code, fence, hr, heading, paragraph (Props/C03b.lean "
         "mapOK_*), giving the unconditional mini_staged for that sub-parser (model tied by the `miniblock` "
         "differential runs); with block quotes (Props/C03c.lean): loop_maps_final (stages end no later than the loop's "
-        "final line), mapOK of the quote rule (its tokens lie inside its patched map), q_staged. MISSING: for the other rules the map contract is a hypothesis (monitored on every real rule call); "
+        "final line), mapOK of the quote rule (its tokens lie inside its patched map), q_staged; with lists (Props/C03d.lean): lChain_maps (a list's patched map encloses its items; items have non-empty, increasing, adjacent ranges; an item's map encloses its nested run), l_staged. MISSING: for the other rules the map contract is a hypothesis (monitored on every real rule call); "
         "'starts/ends on a non-blank line', inline content lines and coverage of every non-blank line are decided "
         "by the oracle (the property's predicate on streams and env; bounded-exhaustive line documents). Known "
         "finding K-C03-1 (str.strip() drops lines made of Unicode blanks from inline content).",
@@ -240,7 +242,8 @@ CLAIMS: dict[str, tuple[str, str, str, str]] = {
         "name are switched together in all four rulers), routes/setOpt_other/dictGet_dictSet (the three option routes are one "
         "assignment on one backing dict), definition_renders_empty; mini_provenance / mini_no_hr / mini_no_code / mini_zero "
         "(Props/C10b: in the modelled sub-parser every token kind comes from an enabled rule, under all 16 rule subsets; "
-        "Props/C10c q_provenance/q_no_hr: the same with block quotes nested to any depth). "
+        "Props/C10c q_provenance/q_no_hr: the same with block quotes nested to any depth; Props/C10d l_provenance/l_no_hr/"
+        "l_no_fence: with lists as well). "
         "MISSING: provenance for the other rules and the "
         "conservative-extension clause need per-rule models: decided by the oracle (token kinds under random rule subsets; "
         "table/strikethrough on vs off on trigger-free inputs; definition options erase to the plain parse, env and HTML equal; "
